@@ -18,6 +18,12 @@ import (
 
 // probe (VERIF_C14_PROBE=<script>) runs one script and dumps a few top-level variables: a development aid.
 func probe(file string) {
+	if file == "markers" {
+		for _, m := range markers() {
+			fmt.Printf("%q\n", m)
+		}
+		return
+	}
 	src, _ := os.ReadFile(file)
 	res, s := runner.RunKeep(string(src), runner.Opts{})
 	fmt.Printf("kind=%s class=%s msg=%s panic=%s\nout=%s\n", res.Kind, res.Class, res.Msg, res.PanicKey, res.Out)
